@@ -236,6 +236,7 @@ def gen_module(rng, nsrc, **genkw):
     srcs = []
     base = None
     for k in range(nsrc):
+        genkw.setdefault("wide", 0.15)            # methods with 3-10 long-named parameters (wide accessor strings)
         g = gen_pkgs.DenseGen(rng, **genkw)       # dense multi-mention generic types + name tuples X, X1 (see gen_pkgs.DenseGen)
         mm = g.module(src_name="src%d" % k, **mod_kw)
         for kk, vv in g.stats.items():
@@ -940,7 +941,7 @@ def check(ctx, only=None):
     ctx.write_evidence(gate, evaluations, len(nontrivial),
                        "one evaluation = one output file's complete data-model dump compared with the model (every accessor of every method/parameter) or one package x placement type-checked by the re-emission oracle; non-trivial = the file has an aliased import or a name changed by collision resolution; distinct by hash of the dump",
                        samples,
-                       extra={"input_histogram": dict(hist, **{"generator: dense multi-mention types": GEN_STATS.get("dense", 0), "generator: methods with a name tuple X, X1": GEN_STATS.get("tuples", 0)}), "model_mismatches": len(corr_bad), "oracle_failed": oracle_failed,
+                       extra={"input_histogram": dict(hist, **{"generator: dense multi-mention types": GEN_STATS.get("dense", 0), "generator: methods with a name tuple X, X1": GEN_STATS.get("tuples", 0), "generator: wide methods (3-10 long-named parameters)": GEN_STATS.get("wide", 0)}), "model_mismatches": len(corr_bad), "oracle_failed": oracle_failed,
                               "mockery_runs": 2 * len(modules) + (4 if only is None else 0), "phase_seconds": phase},
                        assumptions=["go/types method-set completion and method order are recomputed by the harness (exported names by name, then unexported) and are inputs of the model",
                                     "go/parser (harness/go/gotype) is trusted to read Go type expressions; identifier visibility (exported/unexported across packages) is not modelled: interfaces that cannot be named from another package are rendered in-package only",
